@@ -144,3 +144,99 @@ Example refill_would_raise_nonvacuous :
   let s := mkState (occupants s1) [([0%Z], [])] (active_cell s1) (active_id s1) (limit s1) in
   refill_condition list_Z_eqb s [0%Z] = true.
 Proof. vm_compute. reflexivity. Qed.
+
+(** ** Run-time part: recorded runs accepted by the replay [check_ocase] (Model/OccupancyRun.v).
+    A case holds the box, the grid, the occupant limit, the cell-level units of the initial state and, per leg, what
+    [update] received, the recorded positions of all relevant units and the recorded internals.  Cells are computed from
+    position bits by [Cells.idx] (CuboidCells._cell_index on binary64). *)
+Require Import JF.Model.OccupancyRun JF.Proofs.OccupancyRunProofs.
+
+(** every accepted run, of any length: the invariant holds for the model state (= the recorded internals) after
+    initialize and after every leg's update, with [cellof] = cell of the unit's recorded position at that leg *)
+Theorem run_occ_inv :
+  forall c : ocase, check_ocase c = true ->
+  exists states,
+    run_case c = Some states
+    /\ length states = S (length (oc_legs c))
+    /\ NoDup (torus_cells (oc_counts c)) /\ NoDup (case_units c)
+    /\ Forall (fun sc => occ_inv list_Z_eqb list_Z_eqb (torus_cells (oc_counts c)) (fst sc) (case_units c)
+                                 (cellof_of (snd sc))) states.
+Proof. exact OccupancyRunProofs.run_occ_inv. Qed.
+Print Assumptions run_occ_inv.
+
+(** the cell map of leg n is literally position_to_cell of the positions recorded at leg n *)
+Theorem run_cells_are_position_cells :
+  forall (c : ocase) states, run_case c = Some states ->
+  match states with
+  | [] => False
+  | (_, cl0) :: rest =>
+      cl0 = case_cl0 c
+      /\ Forall2 (fun l sc => snd sc = cells_of_positions (case_sides c) (oc_counts c) (ol_units l)) (oc_legs c) rest
+  end.
+Proof. exact OccupancyRunProofs.run_cells_are_position_cells. Qed.
+Print Assumptions run_cells_are_position_cells.
+
+(** one leg: acceptance gives the invariant after the update (the step of [run_occ_inv]) *)
+Theorem step_leg_inv :
+  forall cfg : rcfg, NoDup (rc_cells cfg) -> NoDup (rc_units cfg) ->
+  forall s cl l s' cl',
+    occ_inv list_Z_eqb list_Z_eqb (rc_cells cfg) s (rc_units cfg) (cellof_of cl) ->
+    step_leg cfg s cl l = Some (s', cl') ->
+    occ_inv list_Z_eqb list_Z_eqb (rc_cells cfg) s' (rc_units cfg) (cellof_of cl')
+    /\ cl' = cells_of_positions (rc_sides cfg) (rc_counts cfg) (ol_units l)
+    /\ update list_Z_eqb list_Z_eqb s (ol_nid l) (ol_rel l) (cell_of (rc_sides cfg) (rc_counts cfg) (ol_pos l)) = Ok s'.
+Proof. exact OccupancyRunProofs.step_leg_inv. Qed.
+Print Assumptions step_leg_inv.
+
+(** in every accepted run the active unit changes its recorded cell only at a cell-boundary event, and then into the
+    neighbouring cell (+-1 modulo the count in exactly one direction): [crossings_ok] chains [crossing_fact] over
+    all legs *)
+Theorem active_changes_cell_only_at_boundary :
+  forall (c : ocase) states, run_case c = Some states ->
+  match states with
+  | [] => False
+  | (s0, _) :: rest => crossings_ok (case_cfg c) s0 (oc_legs c) rest
+  end.
+Proof. exact OccupancyRunProofs.active_changes_cell_only_at_boundary. Qed.
+Print Assumptions active_changes_cell_only_at_boundary.
+
+Theorem active_never_leaves_silently :
+  forall (cfg : rcfg) s cl l s' cl', step_leg cfg s cl l = Some (s', cl') ->
+  forall a ac c', active_id s = Some a -> active_id s' = Some a ->
+                  active_cell s = Some ac -> active_cell s' = Some c' -> ac <> c' ->
+                  ol_prev_boundary l = true /\ neighbour (rc_counts cfg) ac c' = true.
+Proof. exact OccupancyRunProofs.step_leg_crossing. Qed.
+Print Assumptions active_never_leaves_silently.
+
+(** non-vacuity: box of length 1, 4 cells, limit 1, units at 0.1 and 0.6; unit (0,) becomes active, crosses into
+    cell 1 by a cell-boundary event (position 0.25 = the neighbour's minimum), then unit (1,) becomes active *)
+Definition ex_ocase : ocase :=
+  mkOCase [4607182418800017408%Z] [4%Z] 1%Z
+    [([0%Z], [4591870180066957722%Z], true); ([1%Z], [4603579539098121011%Z], true)]
+    (mkOSnap [([0%Z], [[0%Z]]); ([2%Z], [[1%Z]])] [] None None)
+    [mkOLeg false [0%Z] [4591870180066957722%Z] true
+       [([0%Z], [4591870180066957722%Z]); ([1%Z], [4603579539098121011%Z])]
+       (mkOSnap [([2%Z], [[1%Z]])] [] (Some [0%Z]) (Some [0%Z]));
+     mkOLeg true [0%Z] [4598175219545276416%Z] true
+       [([0%Z], [4598175219545276416%Z]); ([1%Z], [4603579539098121011%Z])]
+       (mkOSnap [([2%Z], [[1%Z]])] [] (Some [1%Z]) (Some [0%Z]));
+     mkOLeg false [1%Z] [4603579539098121011%Z] true
+       [([0%Z], [4598175219545276416%Z]); ([1%Z], [4603579539098121011%Z])]
+       (mkOSnap [([1%Z], [[0%Z]])] [] (Some [2%Z]) (Some [1%Z]))].
+
+Example run_occ_inv_nonvacuous : check_ocase ex_ocase = true.
+Proof. vm_compute. reflexivity. Qed.
+
+(** the same run with the crossing reported after an event that is not a cell-boundary event is rejected, and so is
+    a run whose recorded internals miss the re-inserted unit *)
+Example active_changes_cell_only_at_boundary_nonvacuous :
+  check_ocase (mkOCase (oc_L ex_ocase) (oc_counts ex_ocase) (oc_max ex_ocase) (oc_init ex_ocase)
+                 (oc_init_snap ex_ocase)
+                 (map (fun l => mkOLeg false (ol_nid l) (ol_pos l) (ol_rel l) (ol_units l) (ol_snap l))
+                      (oc_legs ex_ocase))) = false
+  /\ check_ocase (mkOCase (oc_L ex_ocase) (oc_counts ex_ocase) (oc_max ex_ocase) (oc_init ex_ocase)
+                    (oc_init_snap ex_ocase)
+                    (map (fun l => mkOLeg (ol_prev_boundary l) (ol_nid l) (ol_pos l) (ol_rel l) (ol_units l)
+                                          (mkOSnap [([2%Z], [[1%Z]])] [] (os_acell (ol_snap l)) (os_aid (ol_snap l))))
+                         (oc_legs ex_ocase))) = false.
+Proof. vm_compute. auto. Qed.
